@@ -121,6 +121,7 @@ type Ctx struct {
 	inconcl    []string
 	extra      map[string]any
 	exhaustive *bool
+	hangs      int
 	subChecks  map[string]int64
 }
 
@@ -327,6 +328,22 @@ func (c *Ctx) Inconclusive(why string) {
 // violation with the given replay case written to /verif/replays/<prop>/.
 // It returns true when the deviation is a (new) violation.
 func (c *Ctx) Report(d *Deviation, replay any) bool {
+	r := c.report(d, replay)
+	c.mu.Lock()
+	abort := c.hangs >= envInt("VERIF_MAXHANGS", 3) && c.Replay == ""
+	c.mu.Unlock()
+	if abort {
+		// Every call that does not return costs the whole guard and leaves a goroutine (and
+		// its locks) behind: after a few of them the verdict is settled, the rest of the
+		// exploration would only run into the same wall until the time budget is gone.
+		c.Extra("aborted", "exploration stopped after repeated calls that did not return")
+		c.Finish()
+		os.Exit(1)
+	}
+	return r
+}
+
+func (c *Ctx) report(d *Deviation, replay any) bool {
 	if k := c.KnownFor(d); k != nil {
 		c.mu.Lock()
 		c.knownHits[k.ID]++
@@ -360,6 +377,9 @@ func (c *Ctx) Report(d *Deviation, replay any) bool {
 	}
 	if len(c.violations) < envInt("VERIF_MAXVIOL", 50) {
 		c.violations = append(c.violations, Violation{Sig: sig, Detail: d.Detail, Replay: path})
+	}
+	if d.Fields["observed"] == "HANG" || d.Fields["verdict"] == "HANG" || strings.Contains(d.Detail, "HANG") {
+		c.hangs++
 	}
 	return true
 }
